@@ -5,8 +5,8 @@
    Granularity: [clean] mirrors filepath.Clean element by element (Clean's four cases: empty
    element, ".", "..", real element) over strings.Split(p, "/"); the byte-level lazybuf is not
    modelled.  The tie (tools/c11.py, stream "clean") compares [clean], [join_path],
-   [tries_to_escape], [path_within] with the real functions on every string over {/ . a b}
-   up to a length bound. *)
+   [tries_to_escape], [path_within], [clean_output_path] with the real functions on every string
+   over {/ . a b} up to a length bound. *)
 From Grog Require Export Str.
 
 Definition dot : str := [ch_dot].
@@ -78,8 +78,10 @@ Definition path_within (path dir : str) : bool :=
    else has_prefix (dir ++ slash) path).
 Definition paths_overlap (a b : str) : bool := path_within a b || path_within b a.
 
-(* analysis.cleanOutputPath: filepath.Clean(filepath.Join(pkg, id)) *)
-Definition clean_output_path (pkg id : str) : str := clean (join_path [pkg; id]).
+(* filepath.Clean(filepath.Join(pkg, id)): an output as spelled from the workspace root, a leading
+   ".." kept.  What conflict detection compared before it was given the workspace root, and what
+   cleanOutputPath falls back to when filepath.Rel fails (never, with an absolute root). *)
+Definition lexical_output_path (pkg id : str) : str := clean (join_path [pkg; id]).
 
 (* ------------------------------------------------------------------ semantics *)
 
@@ -144,3 +146,25 @@ Definition location (rootc : list str) (pkg rel : str) : list str :=
    (assumed clean: no "", "." or ".." and at least one element). *)
 Definition is_within_workspace (rootc : list str) (pkg rel : str) : bool :=
   comps_prefix rootc (rev (clean_stack true (rootc ++ split_slash pkg ++ split_slash rel))).
+
+(* filepath.Rel(base, targ) for two clean absolute paths given by their elements: the common
+   leading elements are dropped, one ".." is written per remaining element of base, the rest of
+   targ follows.  (Rel's error cases need a relative operand or a ".." element in base.) *)
+Fixpoint rel_comps (base targ : list str) : list str :=
+  match base, targ with
+  | b :: base', t :: targ' =>
+      if str_eqb b t then rel_comps base' targ' else map (fun _ => dotdot) base ++ targ
+  | _, _ => map (fun _ => dotdot) base ++ targ
+  end.
+
+(* analysis.workspaceRelativePath(root, pkg, rel) = Rel(root, Abs(Join(root, pkg, rel))), the
+   form isWithinWorkspace judges, as elements; Rel writes "." for none *)
+Definition workspace_relative (rootc : list str) (pkg rel : str) : list str :=
+  rel_comps rootc (rev (clean_stack true (rootc ++ split_slash pkg ++ split_slash rel))).
+
+(* analysis.cleanOutputPath: the key conflict detection compares, i.e. the output resolved against
+   the workspace root and written relative to it.  "../../ws/p1/a" from package p1 of root /w/ws is
+   "p1/a"; an output outside the workspace keeps its leading ".." elements (and is rejected by
+   the boundary test). *)
+Definition clean_output_path (rootc : list str) (pkg id : str) : str :=
+  render_rel (workspace_relative rootc pkg id).
